@@ -167,11 +167,12 @@ Record Inv (h : heap) (vs : list sbuf) (ex : nat -> N) : Prop := mkInv {
   inv_cnt : forall id, (id < length h)%nat -> blocks (getb h id) = refs vs id + ex id;
   inv_ex : forall id, (length h <= id)%nat -> ex id = 0;
   inv_wf : forall j, (j < length vs)%nat -> wf h (nth j vs sb0);
-  inv_cap : forall id, (id < length h)%nat -> bsize (getb h id) <= bcap (getb h id) }.
+  inv_cap : forall id, (id < length h)%nat -> bsize (getb h id) <= bcap (getb h id);
+  inv_capb : forall id, (id < length h)%nat -> bcap (getb h id) < two32 }.   (* capacity is a uint32 field *)
 
 Lemma Inv_ext h vs ex ex' : (forall k, ex' k = ex k) -> Inv h vs ex -> Inv h vs ex'.
 Proof.
-  intros E [I1 I2 I3 I4]. constructor; auto.
+  intros E [I1 I2 I3 I4 I5]. constructor; auto.
   - intros id H. rewrite E. auto.
   - intros id H. rewrite E. auto.
 Qed.
@@ -222,7 +223,7 @@ Proof. unfold wf, bsize. intros E1 E2 [W1 W2]. rewrite E1, E2. auto. Qed.
 
 Lemma Inv_lock h vs ex id : Inv h vs ex -> (id < length h)%nat -> Inv (lock h id) vs (exadd ex id).
 Proof.
-  intros [I1 I2 I3 I4] H. constructor.
+  intros [I1 I2 I3 I4 I5] H. constructor.
   - intros k Hk. rewrite length_lock in Hk. rewrite getb_lock by assumption. unfold exadd.
     destruct (Nat.eqb_spec k id) as [->|Hn]; cbn [blocks].
     + rewrite dl_eq by reflexivity. rewrite I1 by assumption. lia.
@@ -232,6 +233,8 @@ Proof.
     rewrite getb_lock by assumption. destruct (Nat.eqb_spec (sstore (nth j vs sb0)) id) as [->|]; reflexivity.
   - intros k Hk. rewrite length_lock in Hk. rewrite getb_lock by assumption.
     destruct (Nat.eqb_spec k id) as [->|]; unfold bsize; cbn [bdata bcap]; apply I4; assumption.
+  - intros k Hk. rewrite length_lock in Hk. rewrite getb_lock by assumption.
+    destruct (Nat.eqb_spec k id) as [->|]; cbn [bcap]; apply I5; assumption.
 Qed.
 
 Lemma refs_zero_nth vs id j : refs vs id = 0 -> (j < length vs)%nat -> sstore (nth j vs sb0) <> id.
@@ -242,7 +245,7 @@ Qed.
 Lemma Inv_unlock h vs ex id : Inv h vs ex -> (id < length h)%nat -> 1 <= ex id ->
   Inv (unlock h id) vs (exsub ex id).
 Proof.
-  intros [I1 I2 I3 I4] H Hex. constructor.
+  intros [I1 I2 I3 I4 I5] H Hex. constructor.
   - intros k Hk. rewrite length_unlock in Hk. rewrite getb_unlock by assumption. unfold exsub.
     destruct (Nat.eqb_spec k id) as [->|Hn].
     + rewrite dl_eq by reflexivity. specialize (I1 id H).
@@ -257,12 +260,15 @@ Proof.
   - intros k Hk. rewrite length_unlock in Hk. rewrite getb_unlock by assumption.
     destruct (Nat.eqb_spec k id) as [->|]; [|apply I4; assumption].
     destruct (blocks (getb h id) <=? 1); unfold bsize; cbn [bdata bcap dead lenN]; [lia|apply I4; assumption].
+  - intros k Hk. rewrite length_unlock in Hk. rewrite getb_unlock by assumption.
+    destruct (Nat.eqb_spec k id) as [->|]; [|apply I5; assumption].
+    destruct (blocks (getb h id) <=? 1); cbn [bcap dead]; [unfold two32; lia|apply I5; assumption].
 Qed.
 
 Lemma Inv_move h vs ex i s' : Inv h vs ex -> (i < length vs)%nat -> wf h s' -> 1 <= ex (sstore s') ->
   Inv h (upd vs i s') (fun k => ex k + dl (sstore (nth i vs sb0)) k - dl (sstore s') k).
 Proof.
-  intros [I1 I2 I3 I4] Hi W Hex. constructor; auto.
+  intros [I1 I2 I3 I4 I5] Hi W Hex. constructor; auto.
   - intros k Hk. rewrite I1 by assumption. pose proof (refs_upd vs i s' k Hi).
     pose proof (dl_le (sstore s') k). unfold dl in *. destruct (Nat.eqb_spec (sstore s') k); subst; lia.
   - intros k Hk. rewrite I2 by assumption. destruct W as [W _].
@@ -276,7 +282,7 @@ Lemma Inv_set_data h vs ex id d : Inv h vs ex -> (id < length h)%nat -> lenN d <
              soff (nth j vs sb0) + slen (nth j vs sb0) <= lenN d) ->
   Inv (set_data h id d) vs ex.
 Proof.
-  intros [I1 I2 I3 I4] H Hc Hv. constructor.
+  intros [I1 I2 I3 I4 I5] H Hc Hv. constructor.
   - intros k Hk. rewrite length_set_data in Hk. rewrite getb_set_data by assumption.
     destruct (Nat.eqb_spec k id) as [->|]; cbn [blocks]; auto.
   - intros k Hk. rewrite length_set_data in Hk. auto.
@@ -286,11 +292,13 @@ Proof.
     unfold bsize; cbn [bdata]. auto.
   - intros k Hk. rewrite length_set_data in Hk. rewrite getb_set_data by assumption.
     destruct (Nat.eqb_spec k id) as [->|]; [unfold bsize; cbn [bdata bcap]; assumption|auto].
+  - intros k Hk. rewrite length_set_data in Hk. rewrite getb_set_data by assumption.
+    destruct (Nat.eqb_spec k id) as [->|]; cbn [bcap]; auto.
 Qed.
 
-Lemma Inv_new h vs ex c : Inv h vs ex -> Inv (h ++ [mkBlob [] c 0]) vs ex.
+Lemma Inv_new h vs ex c : Inv h vs ex -> c < two32 -> Inv (h ++ [mkBlob [] c 0]) vs ex.
 Proof.
-  intros I. pose proof I as [I1 I2 I3 I4]. constructor.
+  intros I Hc. pose proof I as [I1 I2 I3 I4 I5]. constructor.
   - intros k Hk. rewrite app_length in Hk; cbn [length] in Hk.
     destruct (Nat.eq_dec k (length h)) as [->|Hn].
     + rewrite getb_app_new; cbn [blocks]. rewrite (refs_oob h vs ex) by (auto; lia). rewrite I2 by lia. lia.
@@ -302,6 +310,10 @@ Proof.
     destruct (Nat.eq_dec k (length h)) as [->|Hn].
     + rewrite getb_app_new. unfold bsize; cbn [bdata bcap lenN]. lia.
     + rewrite getb_app_old by lia. apply I4. lia.
+  - intros k Hk. rewrite app_length in Hk; cbn [length] in Hk.
+    destruct (Nat.eq_dec k (length h)) as [->|Hn].
+    + rewrite getb_app_new. cbn [bcap]. assumption.
+    + rewrite getb_app_old by lia. apply I5. lia.
 Qed.
 End Proofs.
 
@@ -402,13 +414,14 @@ Lemma reAlloc_spec h vs ex i s ns r (isok : bool) : Inv h vs ex -> (i < length v
   keeps h vs ex i r /\
   (isok = true -> tail (fst r) (snd r) /\ sole vs i (snd r) /\ slen (snd r) = slen s /\ soff (snd r) = 0 /\
                   (length h <= sstore (snd r))%nat /\ ns <= maxSize /\
-                  alloc_cap ns = bcap (getb (fst r) (sstore (snd r)))).
+                  cap32 alloc_cap ns = bcap (getb (fst r) (sstore (snd r)))).
 Proof.
   intros I Hi Hs. unfold reAlloc. destruct (maxSize <? ns) eqn:Emax.
   { destruct isok; [discriminate|]. intros [= <-]. split; [|discriminate]. subst s. apply keeps_refl. assumption. }
-  unfold mb_new. set (nid := length h). set (h1 := h ++ [mkBlob [] (alloc_cap ns) 0]).
+  unfold mb_new. set (nid := length h). set (h1 := h ++ [mkBlob [] (cap32 alloc_cap ns) 0]).
   assert (L1 : length h1 = S nid) by (unfold h1; rewrite app_length; cbn [length]; lia).
-  assert (I1 : Inv h1 vs ex) by (apply Inv_new; assumption).
+  assert (Hc32 : cap32 alloc_cap ns < two32) by (unfold cap32; apply N.mod_lt; unfold two32; lia).
+  assert (I1 : Inv h1 vs ex) by (exact (Inv_new h vs ex _ I Hc32)).
   set (h2 := lock h1 nid).
   assert (I2 : Inv h2 vs (exadd ex nid)) by (apply Inv_lock; [assumption|lia]).
   assert (L2 : length h2 = S nid) by (unfold h2; rewrite length_lock; assumption).
@@ -416,7 +429,7 @@ Proof.
   assert (G2 : forall k, (k < nid)%nat -> getb h2 k = getb h k).
   { intros k Hk. unfold h2. rewrite getb_lock by lia. destruct (Nat.eqb_spec k nid); [lia|].
     unfold h1. apply getb_app_old. assumption. }
-  assert (G2n : getb h2 nid = mkBlob [] (alloc_cap ns) 1).
+  assert (G2n : getb h2 nid = mkBlob [] (cap32 alloc_cap ns) 1).
   { unfold h2. rewrite getb_lock by lia. rewrite Nat.eqb_refl. unfold h1. rewrite getb_app_new. reflexivity. }
   assert (Hex0 : ex nid = 0) by (apply (inv_ex _ _ _ I); unfold nid; lia).
   destruct (if 0 <? slen s then mb_append h2 nid (SPtr (sstore s) (soff s)) (slen s) else Ok h2) as [h3|h3|] eqn:E3.
@@ -440,7 +453,7 @@ Proof.
   2:{ destruct isok; discriminate. }
   destruct isok; [|discriminate]. intros [= <-]. cbn [fst snd].
   (* the new blob now holds a copy of this's bytes *)
-  assert (D3 : h3 = set_data h2 nid (content h s) /\ lenN (content h s) = slen s /\ slen s <= alloc_cap ns).
+  assert (D3 : h3 = set_data h2 nid (content h s) /\ lenN (content h s) = slen s /\ slen s <= cap32 alloc_cap ns).
   { destruct (0 <? slen s) eqn:El.
     - apply mb_append_ok in E3. destruct E3 as [[E _]|(_ & Hfit & Hlen & ->)]; [lia|].
       rewrite G2n in *. cbn [bdata bcap app] in *. unfold bsize in Hfit; cbn [bdata lenN] in Hfit.
@@ -451,7 +464,7 @@ Proof.
       unfold set_data. rewrite G2n. cbn [bcap blocks].
       (* setting the same blob again *)
       apply nth_ext with (d := dead) (d' := dead); [now rewrite length_setb|].
-      intros k Hk. fold (getb h2 k). fold (getb (setb h2 nid (mkBlob [] (alloc_cap ns) 1)) k).
+      intros k Hk. fold (getb h2 k). fold (getb (setb h2 nid (mkBlob [] (cap32 alloc_cap ns) 1)) k).
       rewrite getb_setb by lia. destruct (Nat.eqb_spec k nid) as [->|]; [now rewrite G2n|reflexivity]. }
   destruct D3 as (-> & Dlen & Dcap).
   set (h3 := set_data h2 nid (content h s)).
@@ -461,7 +474,7 @@ Proof.
     intros j Hj E. destruct (inv_wf _ _ _ I j Hj) as [Wj _]. unfold nid in E. lia. }
   assert (G3 : forall k, (k < nid)%nat -> getb h3 k = getb h k).
   { intros k Hk. unfold h3. rewrite getb_set_data by lia. destruct (Nat.eqb_spec k nid); [lia|]. apply G2. assumption. }
-  assert (G3n : getb h3 nid = mkBlob (content h s) (alloc_cap ns) 1).
+  assert (G3n : getb h3 nid = mkBlob (content h s) (cap32 alloc_cap ns) 1).
   { unfold h3. rewrite getb_set_data by lia. rewrite Nat.eqb_refl, G2n. reflexivity. }
   set (s' := mkSBuf nid 0 (slen s)).
   assert (I4 : Inv h3 (upd vs i s') (fun k => exadd ex nid k + dl (sstore (nth i vs sb0)) k - dl (sstore s') k)).
@@ -514,7 +527,7 @@ Lemma Inv_set_data_upd h vs ex i s' d : Inv h vs ex -> (i < length vs)%nat ->
              soff (nth j vs sb0) + slen (nth j vs sb0) <= lenN d) ->
   Inv (set_data h (sstore s') d) (upd vs i s') ex.
 Proof.
-  intros I Hi Es Hc Hs' Ho. pose proof I as [I1 I2 I3 I4].
+  intros I Hi Es Hc Hs' Ho. pose proof I as [I1 I2 I3 I4 I5].
   destruct (I3 i Hi) as [Wi _]. rewrite <- Es in Wi.
   constructor.
   - intros k Hk. rewrite length_set_data in Hk. rewrite getb_set_data by assumption.
@@ -531,6 +544,8 @@ Proof.
       unfold bsize; cbn [bdata]. auto.
   - intros k Hk. rewrite length_set_data in Hk. rewrite getb_set_data by assumption.
     destruct (Nat.eqb_spec k (sstore s')) as [->|]; [unfold bsize; cbn [bdata bcap]; assumption|auto].
+  - intros k Hk. rewrite length_set_data in Hk. rewrite getb_set_data by assumption.
+    destruct (Nat.eqb_spec k (sstore s')) as [->|]; cbn [bcap]; auto.
 Qed.
 
 (* a sole owner: nobody else refers to the blob and nothing else holds it *)
@@ -613,7 +628,7 @@ Lemma cow_spec h vs ex i s ns0 r (isok : bool) : Inv h vs ex -> (i < length vs)%
   cow alloc_cap h s ns0 = (if isok then Ok r else Throw r) ->
   keeps h vs ex i r /\
   (isok = true -> tail (fst r) (snd r) /\ sole vs i (snd r) /\ slen (snd r) = slen s /\
-                  ((forall n, n <= alloc_cap n) ->
+                  ((forall n, n <= maxSize -> n <= cap32 alloc_cap n) ->
                    clamp_newsize s ns0 - slen s <= bcap (getb (fst r) (sstore (snd r))) - bsize (getb (fst r) (sstore (snd r))))).
 Proof.
   intros I Hi Hs. unfold cow. fold (clamp_newsize s ns0). set (ns := clamp_newsize s ns0).
@@ -625,7 +640,7 @@ Proof.
   2:{ (* shared: reallocate *)
       intros E. destruct (reAlloc_spec alloc_cap h vs ex i s ns r isok I Hi Hs E) as [K X]. split; [assumption|].
       intros ->. destruct (X eq_refl) as (T & So & L & O & _ & Mx & Cp). repeat split; auto.
-      intros A. unfold tail in T. rewrite <- T, <- Cp, O, L. specialize (A ns). lia. }
+      intros A. unfold tail in T. rewrite <- T, <- Cp, O, L. specialize (A ns Mx). lia. }
   apply N.eqb_eq in B.
   destruct (bsize (getb h (sstore s)) <? soff s + slen s) eqn:Esz; [lia|].
   set (d := bdata (getb h (sstore s))) in *.
@@ -684,7 +699,7 @@ Proof.
     + left. now rewrite Hs.
     + intros k Hk Hb ->. rewrite Hs in Hb. lia.
   - intros ->. destruct (X eq_refl) as (T & So' & L & O & _ & Mx & Cp). repeat split; auto.
-    intros A. unfold tail in T. rewrite <- T, <- Cp, O, L. specialize (A ns). lia.
+    intros A. unfold tail in T. rewrite <- T, <- Cp, O, L. specialize (A ns Mx). lia.
 Qed.
 End Methods2.
 
@@ -871,7 +886,7 @@ Lemma Inv_upd_fields h vs ex i s' : Inv h vs ex -> (i < length vs)%nat ->
   sstore s' = sstore (nth i vs sb0) -> soff s' + slen s' <= bsize (getb h (sstore s')) ->
   Inv h (upd vs i s') ex.
 Proof.
-  intros I Hi Es W. pose proof I as [I1 I2 I3 I4]. constructor; auto.
+  intros I Hi Es W. pose proof I as [I1 I2 I3 I4 I5]. constructor; auto.
   - intros k Hk. rewrite I1 by assumption. pose proof (refs_upd vs i s' k Hi) as R. rewrite Es in R. lia.
   - intros j Hj. rewrite length_upd in Hj. rewrite nth_upd by assumption.
     destruct (Nat.eqb_spec j i) as [->|]; [|auto]. destruct (I3 i Hi) as [W1 _]. split; [rewrite Es; assumption|assumption].
@@ -1192,6 +1207,7 @@ Proof.
   - intros id H. cbn [length] in H. unfold ex0. apply dl_neq. lia.
   - intros j Hj. rewrite nth_repeat. split; cbn [sstore soff slen sb0 length]; [lia|]. lia.
   - intros id H. cbn [length] in H. assert (id = 0%nat) as -> by lia. unfold bsize; cbn [getb nth bdata bcap lenN]. lia.
+  - intros id H. cbn [length] in H. assert (id = 0%nat) as -> by lia. cbn [getb nth bcap]. apply N.mod_lt. unfold two32; lia.
 Qed.
 
 Theorem init_absv nv : absv (init_state alloc_cap nv) = repeat [] nv.
